@@ -63,6 +63,9 @@ VARIANTS = {
     # report-and-continue: exploring runs count report blocks instead of dying
     "sanrec": ["-O1", "-g", "-fno-omit-frame-pointer",
                "-fsanitize=address,undefined", "-fsanitize-recover=all"],
+    # the same at -O0: nothing is optimised away, so a dead out-of-bounds load is still executed and seen
+    "sanrec0": ["-O0", "-g", "-fno-omit-frame-pointer",
+                "-fsanitize=address,undefined", "-fsanitize-recover=all"],
     "ubrec": ["-O1", "-g", "-fno-omit-frame-pointer",
               "-fsanitize=undefined", "-fsanitize-recover=all"],
     "vg": ["-O1", "-g", "-gdwarf-4"],   # valgrind 3.19 cannot read clang 14's default DWARF 5
